@@ -391,7 +391,7 @@ func runFED10(r *core.Run) {
 			// the fragment is taken to be its first nested object; when that is null the fragment is
 			// pruned as dead and never announced, although other deferred fields have live parents
 			r.Fail(prop, "stream", "fragment-pruned-when-first-nested-object-null", "a deferred fragment was neither announced nor delivered although its mount point is alive\n%sdelivered:     %s\nwithout defer: %s\nframes:\n  %s\n%s", ctxMsg, got, twin.data, strings.Join(x.w.frames, "\n  "), e.describe())
-		} else if got != twin.data && (isNulling(rcv, twv) || (strings.Count(op.Query, "@defer") >= 2 && isNullingOrMissing(rcv, twv))) {
+		} else if got != twin.data && (isNulling(rcv, twv) || (strings.Count(op.Query, "@defer") >= 2 && isNullingOrMissing(rcv, twv)) || (strings.Contains(got, "(null)") && isNullingOrMissing(rcv, twv) && !onlyKeysMissing(rcv, twv))) {
 			// same known finding as the non-null flavour above: the fields are nullable, so the missing
 			// fetch shows as a silent null instead of a completed-with-error fragment
 			r.Fail(prop, "stream", "deferred-fetches-missing", "deferred fields are delivered as null although no subgraph failed and the same operation without @defer returns values (the deferred run sent %d subgraph requests, the twin %d): fetches of the deferred group are missing\n%sreconstructed: %s\nwithout defer: %s\nframes:\n  %s\n%s", len(e.reqs), twinRequests, ctxMsg, got, twin.data, strings.Join(x.w.frames, "\n  "), e.describe())
